@@ -828,13 +828,17 @@ async fn handle_frontend_messages<S: TransportSenderT>(
 		}
 		// User called `request` on the front-end
 		FrontToBack::Request(request) => {
-			if let Err(send_back) = manager.lock().insert_pending_call(request.id.clone(), request.send_back) {
-				tracing::debug!(target: LOG_TARGET, "Denied duplicate method call");
+			// An unsubscribe call made on behalf of a subscription whose handle is already gone (nobody waits for
+			// its answer) uses the slot that was reserved for it when the subscription was requested.
+			if request.send_back.is_some() {
+				if let Err(send_back) = manager.lock().insert_pending_call(request.id.clone(), request.send_back) {
+					tracing::debug!(target: LOG_TARGET, "Denied duplicate method call");
 
-				if let Some(s) = send_back {
-					let _ = s.send(Err(InvalidRequestId::Occupied(request.id.to_string())));
+					if let Some(s) = send_back {
+						let _ = s.send(Err(InvalidRequestId::Occupied(request.id.to_string())));
+					}
+					return Ok(());
 				}
-				return Ok(());
 			}
 
 			sender.send(request.raw).await?;
